@@ -80,6 +80,8 @@ impl FdlApplication for ScriptApp {
 pub enum RMon {
     C12,
     C15,
+    /// no protocol monitor: only panics / hangs of the station are reported (C05)
+    C05,
 }
 
 #[derive(Clone, Debug)]
@@ -128,7 +130,7 @@ impl RCfg {
             members0: v["members0"].as_array().unwrap().iter().map(|x| x.as_u64().unwrap() as u8).collect(),
             scripts: v["scripts"].as_array().unwrap().iter().map(|s| s.as_array().unwrap().iter().map(|x| step(x.as_str().unwrap())).collect()).collect(),
             multi: v["multi"].as_bool().unwrap(),
-            mon: if v["mon"] == "C12" { RMon::C12 } else { RMon::C15 },
+            mon: if v["mon"] == "C12" { RMon::C12 } else if v["mon"] == "C05" { RMon::C05 } else { RMon::C15 },
             max_visits: v["max_visits"].as_u64().unwrap() as u32,
             join_budget: v["join_budget"].as_u64().unwrap() as u8,
         }
@@ -289,7 +291,7 @@ impl RState {
     }
 
     fn report(&mut self, sig: &str, detail: String) {
-        let pre = if self.cfg.mon == RMon::C12 { "c12" } else { "c15" };
+        let pre = match self.cfg.mon { RMon::C12 => "c12", RMon::C15 => "c15", RMon::C05 => "c05.reactive" };
         ctx().violation(format!("{pre}.{sig}"), format!("{detail} [TS={} HSA={} G={} members0={:?} scripts={:?} answers so far {:?}]", self.cfg.ts, self.cfg.hsa, self.cfg.gap_factor, self.cfg.members0, self.cfg.scripts, self.history), self.replay_json(), self.history.len() as u64 + self.cfg.hsa as u64);
         self.dead = true;
     }
@@ -983,6 +985,7 @@ impl RState {
             b.push(a.fcb as u8);
         }
         match self.cfg.mon {
+            RMon::C05 => {}
             RMon::C12 => b.extend_from_slice(format!("{:?}", self.c12).as_bytes()),
             RMon::C15 => {
                 let m = &self.c15;
